@@ -185,7 +185,7 @@ def uses_nonptr_option(sig):
     def has(t):
         k = t["k"]
         if k == "opt":
-            return True
+            return t["t"]["k"] != "unit"      # Option<()> needs no option support: it is the nullable form of a unit / write-out method
         if k == "res":
             return has(t["ok"]) or has(t["err"])
         if k == "struct":
